@@ -25,6 +25,9 @@ impl Backend {
             return Ok(None);
         };
 
+        // Text of the document, to end the full range at the end of the last line
+        let content = self.fixture_db.get_file_content(&file_path);
+
         // Collect all fixture definitions for this file
         let mut symbols: Vec<DocumentSymbol> = Vec::new();
 
@@ -48,9 +51,20 @@ impl Backend {
                 // Selection range is the fixture name
                 let selection_range = Self::create_range(line, start_char, line, end_char);
 
-                // Full range includes the entire function body
-                let end_line = Self::internal_line_to_lsp(definition.end_line);
-                let range = Self::create_range(line, 0, end_line, 0);
+                // Full range includes the entire function body, up to the end of its last
+                // line (and always contains the selection range)
+                let end_line = Self::internal_line_to_lsp(definition.end_line).max(line);
+                let last_line_len = content
+                    .as_ref()
+                    .and_then(|c| c.lines().nth(end_line as usize))
+                    .map(|l| l.encode_utf16().count() as u32)
+                    .unwrap_or(0);
+                let range_end_char = if end_line == line {
+                    last_line_len.max(end_char)
+                } else {
+                    last_line_len
+                };
+                let range = Self::create_range(line, 0, end_line, range_end_char);
 
                 // Build detail string with return type if available
                 let detail = definition
